@@ -38,6 +38,20 @@ func TestRealProbe(t *testing.T) {
 		{"procsubst-with-child", "cat <(sleep 100)", false},
 	}
 	var results []ProbeResult
+	// the kill timeout itself is a parameter of DefaultExecHandler: negative
+	// and zero mean "kill at once"
+	for _, kt := range []time.Duration{-1, 0, 50 * time.Millisecond} {
+		name := fmt.Sprintf("sigint-ignoring-child-killtimeout=%v", kt)
+		var res ProbeResult
+		for attempt := 1; attempt <= 2; attempt++ {
+			res = runRealProbe(name, `sh -c 'trap "" INT TERM; exec sleep 100'`, false, kt, max(kt, 0)+20*time.Second)
+			res.Attempts = attempt
+			if res.OK {
+				break
+			}
+		}
+		results = append(results, res)
+	}
 	for _, c := range cases {
 		var res ProbeResult
 		for attempt := 1; attempt <= 2; attempt++ {
